@@ -681,6 +681,52 @@ fn run_c08(args: &Args, corr: &mut Corr, rep: &mut Report) {
     for (n, t) in [(0u64, 1u64), (100, 3), (1 << 14, 16), (1 << 20, 8), (12345678, 16), ((1 << 32) + 5, 2)] {
         corr.case(&format!("header boundm {} {}", n, t), &format!("{}", BrotliEncoderMaxCompressedSizeMulti(n as usize, t as usize)));
     }
+    // ---- (b0) MakeUncompressedStream directly (hook `verif_make_uncompressed_stream`), output buffer of
+    // exactly the advertised bound: fits, framing alone yields the input, chunking at 2^24
+    {
+        let mut ns: Vec<usize> = vec![0, 1, 2, 3, 100, 65535, 65536, 65537, 65538, 100000, (1 << 20) - 1, 1 << 20, (1 << 20) + 1, (1 << 20) + 2];
+        if thorough { ns.extend_from_slice(&[(1 << 24) - 1, 1 << 24, (1 << 24) + 1, (1 << 24) + 65537, (1 << 25) + 5]); }
+        let nn = ns.len();
+        let res = par_tasks(nn, move |i| {
+            let n = ns[i];
+            let mut rep = Report::default();
+            let mut lines = vec![];
+            let g = 100 + i as u64;
+            let input = gen_bytes(n, g);
+            let bound = BrotliEncoderMaxCompressedSize(n);
+            rep.evaluations += 1;
+            let r = catch_unwind(AssertUnwindSafe(|| {
+                let mut out = vec![0u8; bound];
+                let len = brotli::enc::encode::verif_make_uncompressed_stream(&input, &mut out[..]);
+                out.truncate(len);
+                out
+            }));
+            match r {
+                Err(_) => {
+                    lines.push((format!("header stored {} {}", n, g), "panic".to_string()));
+                    rep.viol("header:c08:stored-stream-does-not-fit", "MakeUncompressedStream panics with an output buffer of the advertised bound", format!("{{\"n\":{}}}", n));
+                }
+                Ok(o) => {
+                    let mut h = FNV_INIT;
+                    for &x in o.iter() { h = fnv_step(h, x as u64); }
+                    lines.push((format!("header stored {} {}", n, g), format!("{} {:016x} {} {}", o.len(), h, hex(&o[..o.len().min(16)]), hex(&o[o.len() - o.len().min(8)..]))));
+                    match framing_payload(&o) {
+                        Some((_, blocks, payload)) => {
+                            let raws: Vec<usize> = blocks.iter().filter_map(|bl| if let Block::Raw(x) = bl { Some(x.len()) } else { None }).collect();
+                            let want: Vec<usize> = { let mut v = vec![]; let mut left = n; while left > 0 { let ch = left.min(1 << 24); v.push(ch); left -= ch; } v };
+                            if payload != input { rep.viol("header:c08:stored-stream-wrong", "stored stream does not carry the input", format!("{{\"n\":{}}}", n)); }
+                            else if raws != want { rep.viol("header:c08:stored-chunking", &format!("chunks {:?}", raws), format!("{{\"n\":{}}}", n)); }
+                            else { rep.nontrivial += 1; rep.count(&format!("c08.stored.direct.chunks.{}", raws.len())); }
+                        }
+                        None => rep.viol("header:c08:stored-stream-unparsable", "framing reader rejects the stored stream", format!("{{\"n\":{}}}", n)),
+                    }
+                    if n <= (1 << 22) { if let Err(e) = dec::decode_both(&o, false, &input) { rep.viol("header:c08:stored-stream-undecodable", &e, format!("{{\"n\":{}}}", n)); } }
+                }
+            }
+            (lines, rep)
+        });
+        for (lines, r) in res { for (a, bb) in lines { corr.case(&a, &bb); } merge_rep(rep, r); }
+    }
     // ---- (b)+(c) one-shot contract; stored stream through the fallback
     let mut cases: Vec<OsCase> = vec![];
     // stored-stream lengths (q0, lgwin 10 on incompressible data exceeds the bound => fallback)
